@@ -2,6 +2,7 @@
 import MagpyVerif.Model.Tree
 import MagpyVerif.Model.Angax
 import MagpyVerif.Model.History
+import MagpyVerif.Model.Level2
 import Driver.KernFam
 import Driver.Parse
 
@@ -56,6 +57,9 @@ inductive Cmd where
   | new (t : Tree)
   | op (o : HOp Float Rot Vec)
   | unsnappable
+  /-- own-sensor reading of the current tree: sources (address, affine field function `A x + b`), sensor address,
+  handedness, pixels -/
+  | read (srcs : List (List Nat × Rot × Vec)) (kaddr : List Nat) (left : Bool) (pixels : List Vec)
 
 /-! `rotate_from_angax`: the conversion (Model/Angax.lean) runs in IEEE double; scipy's `from_rotvec`
 is replaced by Rodrigues' matrix snapped to the integer grid (the harness snaps scipy's result in the
@@ -165,6 +169,14 @@ def cmd : P Cmd := do
       let a ← addr; let j ← nat
       pure (.op (.remove a j))
   | "bad" => pure (.op (.base .rejected))
+  | "read" => do
+      let ns ← nat
+      let srcs ← many ns (do let a ← addr; let m ← rot; let b ← vec; pure (a, m, b))
+      let ka ← addr
+      let left ← nat
+      let np ← nat
+      let px ← many np vec
+      pure (.read srcs ka (left != 0) px)
   | t => throw s!"unknown path command {t}"
 
 def step (st : Option Tree) (line : String) : Option Tree × String :=
@@ -172,6 +184,13 @@ def step (st : Option Tree) (line : String) : Option Tree × String :=
   | .error e => (st, s!"parse-error {e}")
   | .ok (.new t) => (some t, s!"ok {dump t}")
   | .ok .unsnappable => (st, "unsnappable")
+  | .ok (.read srcs ka left px) => match st with
+      | some t =>
+        let flipX : Vec → Vec := fun a => ⟨-a.x, a.y, a.z⟩
+        match t.ownTensor flipX (srcs.map fun s => (s.1, fun x => s.2.1 • x + s.2.2)) ka px [px.length] left with
+        | some B => (st, s!"read {B.length} | " ++ " | ".intercalate (B.map fun row => " ".intercalate (row.map fmtV)))
+        | none => (st, "read no-such-address")
+      | none => (st, "no-tree")
   | .ok (.op o) => match st with
       | some t =>
         let t' := t.hstep driverScipy o
